@@ -7,6 +7,7 @@ CONSTANTS
   CallSeqs <- Calls1
   MaxGen = 3
   AllowExplicit = TRUE
+  Bug = "none"
 INVARIANT CommittedUntorn
 INVARIANT LatestNeverDeleting
 INVARIANT RestoreSound
